@@ -221,6 +221,36 @@ pub fn eval_value(mv: &MV) -> Result<String, (String, String)> {
                 format!("printed text is not UTF-8: {}", bytes_lossy(&text))))
         }
     };
+    // ---- Display under format flags: whatever the impl makes of width, fill,
+    // precision, sign and alternate, the result still reads back as the value
+    {
+        let flagged: [(&str, String); 9] = [
+            ("{:12}", format!("{:12}", v)),
+            ("{:>40}", format!("{:>40}", v)),
+            ("{:_<9}", format!("{:_<9}", v)),
+            ("{:^7}", format!("{:^7}", v)),
+            ("{:.1}", format!("{:.1}", v)),
+            ("{:8.2}", format!("{:8.2}", v)),
+            ("{:#}", format!("{:#}", v)),
+            ("{:+}", format!("{:+}", v)),
+            ("{:08}", format!("{:08}", v)),
+        ];
+        let plain = catch(|| lexpr::from_str(&text_str));
+        for (spec, t2) in flagged.iter() {
+            let back = catch(|| lexpr::from_str(t2));
+            let same = match (&plain, &back) {
+                (Ok(Ok(a)), Ok(Ok(b))) => a == b,
+                (Ok(Err(_)), _) => true,
+                _ => false,
+            };
+            if !same {
+                return Err((
+                    format!("stage=display-flags spec={}", spec),
+                    format!("format!({:?}, value) gave {:?}, which does not read back as the value ({:?} does)", spec, clip(t2, 200), clip(&text_str, 200)),
+                ));
+            }
+        }
+    }
     // ---- parse entry points
     let fl = |a: f64, b: f64| float_roundtrip_ok(a, b, &ryu_text(a));
     let parsed = catch(|| {
